@@ -15,6 +15,7 @@
 package transport
 
 import (
+	"crypto/tls"
 	"encoding/binary"
 	"io"
 	"net"
@@ -114,6 +115,12 @@ func (p *conn) GetOption(n string) (interface{}, error) {
 	switch n {
 	case mangos.OptionMaxRecvSize:
 		return p.maxrx, nil
+	case mangos.OptionTLSConnState:
+		// A listener records this before the TLS handshake has run;
+		// report the state of the connection as it is now.
+		if tc, ok := p.c.(*tls.Conn); ok {
+			return tc.ConnectionState(), nil
+		}
 	}
 	if v, ok := p.options[n]; ok {
 		return v, nil
